@@ -9,6 +9,11 @@ use serde_json::{Value, json};
 const KEYS: [&str; 14] = ["iss", "sub", "aud", "exp", "nbf", "iat", "jti", "zz", "issx", "isp", "su", "ISS", "exq", "ubs"];
 const STRS: [&str; 2] = ["alice", "bob"];
 const TSS: [&str; 2] = ["2024-01-01T00:00:00Z", "2039-12-31T23:59:59.999999999Z"];
+/// the same two instants written with a numeric UTC offset, as issuers in other time zones write them
+const TSS_OFFSET: [&str; 2] = ["2024-01-01T02:00:00+02:00", "2039-12-31T18:29:59.999999999-05:30"];
+thread_local! {
+    static OFFSET_FORM: std::cell::Cell<bool> = const { std::cell::Cell::new(false) };
+}
 
 #[derive(Clone, Copy, PartialEq)]
 struct Member(usize, &'static str, usize);
@@ -36,6 +41,9 @@ fn render(ms: &[Member]) -> String {
         s.push_str(&format!("\"{}\":", KEYS[m.0]));
         match m.1 {
             "str" => s.push_str(&format!("\"{}\"", STRS[m.2 - 1])),
+            // (a time claim may be written with an offset; a string claim that happens to look like a timestamp keeps the Z form, since
+            // its value is the string itself)
+            "ts" if OFFSET_FORM.with(|c| c.get()) && (3..6).contains(&m.0) => s.push_str(&format!("\"{}\"", TSS_OFFSET[m.2 - 1])),
             "ts" => s.push_str(&format!("\"{}\"", TSS[m.2 - 1])),
             "null" => s.push_str("null"),
             "num" => s.push_str("17"),
@@ -234,7 +242,33 @@ fn project_object(text: &str) -> (Vec<String>, Vec<String>, Vec<Value>) {
     (items.iter().map(|x| x.1.clone()).collect(), items.iter().map(|x| ty(&x.2).to_string()).collect(), items.into_iter().map(|x| x.2).collect())
 }
 
+/// a value whose serialisation fails half-way (a map key that is not a string, after one good member)
+struct FailsMidway;
+impl serde::Serialize for FailsMidway {
+    fn serialize<S: serde::Serializer>(&self, s: S) -> Result<S::Ok, S::Error> {
+        use serde::ser::SerializeMap;
+        let mut m = s.serialize_map(None)?;
+        m.serialize_entry("user", "alice")?;
+        m.serialize_entry(&(1, 2), "tuple keys are not JSON")?;
+        m.end()
+    }
+}
+impl<'de> serde::Deserialize<'de> for FailsMidway {
+    fn deserialize<D: serde::Deserializer<'de>>(_: D) -> Result<Self, D::Error> {
+        Ok(FailsMidway)
+    }
+}
+
 fn observe_json_wrappers(rec: &mut Recorder, rng: &mut Prng) {
+    // every few observations an encode that fails comes first, through both wrappers: what it wrote so far must not show up later
+    if rng.below(3) == 0 {
+        let mut sink = Vec::new();
+        let a = Json(FailsMidway).encode(&mut sink).is_err();
+        let mut sink2 = Vec::new();
+        let b = Footer::encode(&Json(FailsMidway), &mut sink2).is_err();
+        rec.emit(json!({"fn":"json","payload_encode_ok":true,"payload_bytes_equal":a,"footer_encode_ok":true,"footer_bytes_equal":b,
+            "payload_decode_equal":true,"footer_decode_equal":true,"bad_agrees":true,"what":"an unserialisable value is refused by both encoders"}));
+    }
     let v: Value = match rng.below(13) {
         // brackets and braces inside strings (balanced or not), as JSONPath / regular expressions / templates have them
         6 => {
@@ -338,6 +372,19 @@ pub fn run(rec: &mut Recorder, thorough: bool, seed: u64) {
             observe_decode(rec, &seq);
         }
     }
+    // the time claims written with numeric UTC offsets: the instants are the same, so are the demanded slot values
+    OFFSET_FORM.with(|c| c.set(true));
+    for a in &ms {
+        if a.1 == "ts" && (3..6).contains(&a.0) {
+            observe_decode(rec, &[*a]);
+            for b in &ms {
+                if b.0 < 7 && (b.1 == "ts" || b.1 == "str") {
+                    observe_decode(rec, &[*a, *b]);
+                }
+            }
+        }
+    }
+    OFFSET_FORM.with(|c| c.set(false));
     // round trips of random claims: every presence mask, several values each
     let reps = if thorough { 40 } else { 6 };
     for mask in 0..128usize {
